@@ -85,7 +85,7 @@ theorem pollOnce_lingering (c : Cfg) (i : In) (s : St) (o : List Out) (d : Nat) 
     ∃ r, pollOnce c i s o = .ret r ∧
       (i.now < d → Lingering r.s d ∨ Closing r.s d) ∧
       (d ≤ i.now → r.s.complete = true ∨ Closing r.s (i.cached + c.D)) := by
-  unfold pollOnce
+  unfold pollOnce pollModes
   have h1 := pollHeadTimer_lingering c i _ d (pollGraceful_inv c i s hi) (pollGraceful_lingering i s d h)
   simp only
   split
